@@ -549,7 +549,10 @@ Arguments HMorph {V} m.
    of arraymorph.py ever assign on self (the model computes every view from the CURRENT arrays: no derived state) *)
 Definition all_in (known l : list string) : bool := forallb (fun x => existsb (String.eqb x) known) l.
 
-Definition c18_static_ok (writer_modes loader_modes segmentlist_writes arraymorph_writes : list string) : bool :=
+Definition c18_static_ok (writer_modes loader_modes segmentlist_writes arraymorph_writes : list string)
+           (writer_open_guarded : bool) : bool :=
+  (* every open_file of the writer is a `with` item or is immediately followed by try/finally: close() *)
+  writer_open_guarded &&
   match writer_modes with [] => false | _ => forallb (String.eqb "w"%string) writer_modes end
   && match loader_modes with [] => false | _ => forallb (String.eqb "r"%string) loader_modes end
   && all_in ["arraymorph"; "instantiated_segments"]%string segmentlist_writes
